@@ -30,6 +30,7 @@ type Obligation struct {
 	Inputs  map[string]Value // parameter values at function entry (for replay)
 	Canary  bool             // must be satisfiable (goal false expected to FAIL)
 	Cover   bool
+	Soft    bool // reachability probe that is reported, not part of the verdict
 	Results map[string]Value
 	Clause  *SExpr // violated clause (for replay evaluation)
 	Hints   []*Term
@@ -113,6 +114,8 @@ type Exec struct {
 	curNode             ast.Node
 	inSpec              int
 	ioErrAxiomDone      bool
+	sentinelAxiomDone   bool
+	reachCount          map[string]int
 	pathAxiomsDone      bool
 	assignSrcType       types.Type
 	lockRules           []lockRule
@@ -598,7 +601,16 @@ func (st *State) heapArr(key string, elem *Sort) *Term {
 	name := fmt.Sprintf("H%d_%s", st.epoch, sanitize(key))
 	for _, lh := range st.lazyHavoc {
 		if strings.Contains(key, lh.pat) {
+			prev := name
 			name = fmt.Sprintf("H%d_%s_%s", st.epoch, sanitize(key), lh.tag)
+			if lh.newOnly {
+				q := Var("qn_"+lh.tag+"_"+sanitize(key), SInt)
+				st.assumeRaw(Forall([]*Term{q}, Implies(Select(lh.alloc, q), Eq(Select(Var(name, ArrOf(elem)), q), Select(Var(prev, ArrOf(elem)), q)))))
+			}
+			if lh.only != nil {
+				q := Var("qn_"+lh.tag+"_"+sanitize(key), SInt)
+				st.assumeRaw(Forall([]*Term{q}, Implies(Ne(q, lh.only), Eq(Select(Var(name, ArrOf(elem)), q), Select(Var(prev, ArrOf(elem)), q)))))
+			}
 		}
 	}
 	a := Var(name, ArrOf(elem))
@@ -639,6 +651,10 @@ func (x *Exec) assumeLeaf(st *State, li leafInfo, t *Term) {
 	case "ptr", "map", "base":
 		// object identities live below 2^48; ghost identities (response header maps) above
 		st.assumeRaw(And(Le(IntLit(0), t), Le(t, IntLit(1<<48))))
+		if li.Kind != "base" && st.alloc != nil {
+			// no dangling references: what a stored pointer or map value denotes is allocated
+			st.assumeRaw(Or(Eq(t, IntLit(0)), Select(st.alloc, t)))
+		}
 	case "opaque", "func":
 		st.assumeRaw(Le(IntLit(0), t))
 	}
